@@ -173,6 +173,7 @@ type tgen struct {
 	structs map[string]*structInfo
 	sorder  []string
 	active  map[string]bool // struct names being generated (cycle detection)
+	consts  map[string]string
 }
 
 type oparam struct {
@@ -399,9 +400,20 @@ func extractTrans() {
 	extRealOn = true
 	defer func() { pkgCache, stdCache, extRealOn = savedPkg, savedStd, false }()
 
-	g := &tgen{done: map[string]*tfunc{}, structs: map[string]*structInfo{}, active: map[string]bool{}}
+	g := &tgen{done: map[string]*tfunc{}, structs: map[string]*structInfo{}, active: map[string]bool{}, consts: map[string]string{}}
 	for _, tg := range transTargets {
 		g.translate(tg)
+	}
+	var cn []string
+	for k := range g.consts {
+		cn = append(cn, k)
+	}
+	sort.Strings(cn)
+	for _, k := range cn {
+		fmt.Fprintf(&l.sb, "def %s : %s\n", k, g.consts[k])
+	}
+	if len(cn) > 0 {
+		l.sb.WriteString("\n")
 	}
 	for _, s := range g.sorder {
 		si := g.structs[s]
